@@ -86,11 +86,11 @@ func checkC10(p *load.Program, r *kit.Report) {
 			return o.Rule != "MERGE-SHAPE" || strings.HasPrefix(o.Construct, "Branch.Save")
 		}, "MAIN-FILE-SHAPE", "MERGE-SHAPE")
 	r.NotDecided = "the statement itself (all observables equal before/after Clean for every tree): consolidation correctness for three or more generations as values, file-boundary and prune-depth arithmetic over histories. Decided are ordering, coverage-of-every-branch, label and all-or-nothing facts that are necessary for it."
-	r.Rule("ORDER", "clean runs consolidate → saveMainBranch → prune → saveInvalidHashes, each behind the previous nil-error edge; in prune every branch is saved before it is pruned or dropped and a Save error returns before repo.branches is replaced", 5)
+	r.Rule("ORDER", "clean runs consolidate → saveMainBranch → prune → saveInvalidHashes, each behind the previous nil-error edge; in prune every branch is saved before it is pruned or dropped and a Save error returns before repo.branches is replaced; nothing is added to a branch and no tip is stored after the automatic clean in ProcessHeader", 6)
 	r.Rule("NO-EFFECT-BEFORE-ERROR", "consolidate replaces repo.branches and repo.longest only after its last error return", 3)
 	r.Rule("COVER-ALL", "consolidate re-attaches (Connect) every branch other than the old root and the old tip; prune lowers the prune height to the fork point of every side branch (no branch is skipped)", 2)
 	r.Rule("HEIGHT-LABEL", "labels written by Consolidate/Truncate/Connect equal positional heights (shared with C09)", 3)
-	r.Rule("GUARD-DOM", "Prune(n) is called with n = pruneHeight - PrunedLowestHeight() behind PrunedLowestHeight() < pruneHeight; the automatic clean runs only when Height()%10000 == 0 on the best-branch arm", 2)
+	r.Rule("GUARD-DOM", "Prune(n) is called with n = pruneHeight - PrunedLowestHeight() behind PrunedLowestHeight() < pruneHeight; the automatic clean runs only when Height()%10000 == 0 on the best-branch arm; NewRepository registers the genesis hash at height 0 on every path", 3)
 
 	if f := fn(p, r, "ORDER", H, "Repository.clean"); f != nil {
 		orderedBehindSuccess(p, r, "ORDER", f, "clean", H+".Repository.consolidate", H+".Repository.saveMainBranch", H+".Repository.prune", H+".saveInvalidHashes")
@@ -322,7 +322,63 @@ func checkC10(p *load.Program, r *kit.Report) {
 			}
 		}
 		r.Check(bad == "", "GUARD-DOM", "ProcessHeader/auto-clean", posOf(p, ph.Blocks[0].Instrs[0]), "clean only every 10000 heights", bad)
+		// clean rebuilds every branch as a new object and replaces repo.branches/repo.longest: the
+		// *Branch values ProcessHeader looked up before it are stale afterwards, so nothing may be
+		// added to a branch, and the tip may not be stored, after the automatic clean
+		if len(cl) == 1 {
+			badA := ""
+			rr := kit.Reach(ph, kit.After(cl[0].(ssa.Instruction)), kit.Opts{})
+			kit.AllInstrs(ph, func(in ssa.Instruction) {
+				if !rr.Has(in) || badA != "" {
+					return
+				}
+				if c, ok := in.(ssa.CallInstruction); ok {
+					switch kit.CallID(c) {
+					case H + ".Branch.Add", H + ".NewBranch":
+						badA = kit.ShortID(kit.CallID(c)) + " at " + posOf(p, in) + " runs after the automatic clean: the header is added to a branch object that clean has just replaced (the tip stays one short and the next header is an orphan)"
+					}
+				}
+			})
+			for _, w := range kit.DirectWrites(ph) {
+				if (w.Field == longestF || w.Field == branchesF) && rr.Has(w.Instr) && badA == "" {
+					badA = "repo." + w.Field.Name() + " is stored at " + posOf(p, w.Instr) + " after the automatic clean replaced it"
+				}
+			}
+			r.Check(badA == "", "ORDER", "ProcessHeader/auto-clean-last", posOf(p, cl[0]), "no branch mutation or tip store follows the automatic clean", badA)
+		}
 	}
+	checkGenesisSeed(p, r, "GUARD-DOM")
+}
+
+// checkGenesisSeed: NewRepository registers the genesis hash at height 0 in the long-lived height
+// map on every path (for every network): once the first header is pruned from memory that entry is
+// the only way a by-hash lookup finds it.
+func checkGenesisSeed(p *load.Program, r *kit.Report, rule string) {
+	f := fn(p, r, rule, H, "NewRepository")
+	if f == nil {
+		return
+	}
+	heightsF := p.Field(H, "Repository", "heights")
+	var seeds []ssa.Instruction
+	for _, w := range kit.DirectWrites(f) {
+		if w.Field == heightsF && w.Kind == "mapupdate" {
+			if k, ok := kit.ConstInt(w.Val); ok && k == 0 {
+				seeds = append(seeds, w.Instr)
+			}
+		}
+	}
+	bad := ""
+	if len(seeds) == 0 {
+		bad = "NewRepository does not register the genesis hash at height 0"
+	} else {
+		rr := kit.Reach(f, []kit.Pt{kit.Entry(f)}, kit.Opts{StopAt: kit.InstrSet(seeds...)})
+		for _, ret := range kit.Returns(f) {
+			if rr.Has(ret) {
+				bad = "a repository can be constructed without the genesis hash in the height map (" + rr.PathTo(ret, p.Pos) + "): on that configuration the first header is unknown by hash once it is pruned from memory"
+			}
+		}
+	}
+	r.Check(bad == "", rule, "NewRepository/genesis-height-registered", posOf(p, f.Blocks[0].Instrs[0]), "heights[genesis] = 0 on every path", bad)
 }
 
 // isOldestPhi: the value chosen by the oldest-branch scan (a *Branch phi / local assigned from
